@@ -11,6 +11,19 @@ CHECKS = {
    text="Every type of the bounded grammar (18 constructors x 26 leaves to depth 2/3, chains of tricky constructors to length 4/6, special shapes, constraint-only types) is emitted by the real builder in 5-6 syntactic positions, written, re-parsed and re-checked by go/types; the denoted type must be structurally identical to the original. Complete within the bound; says nothing about deeper nesting.",
    note="Trusted: go/parser+go/types 1.23 as reader; structural canonical string (named types by path+name+targs) as cross-universe identity; fixture importer.",
    design="§4 C13"),
+
+ "C01": dict(
+   category="exploration",
+   technique="bounded exhaustive enumeration of the expression grammar x use contexts on the real CodeBuilder (canonical front-end op sequence), oracle = go/parser+go/types on the files the package writes",
+   text="Every single-operator expression over a 78-atom alphabet, every atom/single-operator expression over an 18-atom alphabet in ~100 use contexts, and depth-2 expressions over a reduced alphabet are built into fresh packages; whenever the builder reports no error the written files must parse and type-check. 1.8M executions (quick). Complete within the stated alphabets/depth. Known accepted-but-ill-typed classes are pinned one by one (class = root construct | use | normalised go/types message) with their input counts in known/C01.<tier>.tsv; any other class or a larger count is a VIOLATION.",
+   note="Trusted: go/types 1.23.5 as the specification; the fixture env package; the driver's transcription of the canonical operation sequences; the shared-builtin accelerator (self-checked against the real InitBuiltin path on a fixed slice of every run).",
+   design="§4 C01"),
+ "C04": dict(
+   category="exploration",
+   technique="bounded exhaustive enumeration of constant expressions on the real folding code, oracle = go/types constant values on the emitted text (exact comparison)",
+   text="All unary/binary operators over 90 constant operands (every untyped kind, typed constants, T(min|max|0|1) for every integer type, >64-bit, fractional, 1e39/1e309), conversions to 34 types, constant-capable builtins and unsafe, depth-2 nesting over a reduced alphabet; for the root and every sub-expression the builder's value is compared with Info.Types[e].Value (presence and exact equality); constant expressions go/types rejects must not be folded. Deviations are pinned per class in known/C04.<tier>.tsv.",
+   note="Trusted: go/types 1.23.5 constant arithmetic; parallel IR/syntax traversal pairs nodes only when shapes agree; untyped operands converted by their context are not compared (go/types reports the converted value).",
+   design="§4 C04"),
 }
 
 NOT_APPLICABLE = {
